@@ -69,13 +69,16 @@ SEEDS = {
     # with length 4, then 88 04, then 05 00, then the real contextName
     "v3priv-get1-after-realign": ("v3:authPriv:md5", "get1-after"),
     "v3auth-discovery": ("v3:authNoPriv:md5", "discovery"),
+    # (the same engine id falls back into step inside the USM block:
+    # 30 LL 04 0b <engine id> 02 01 boots ...)
+    "v3auth-discovery-realign": ("v3:authNoPriv:md5", "discovery"),
     "v3auth-report": ("v3:authNoPriv:md5", "report"),
     "v2c-trap": ("v2c", "trap"),
     "v2c-60k": ("v2c", "big"),
     "v2c-get1500": ("v2c", "many"),
 }
 
-QUICK_SEEDS = ["v2c-get1", "v2c-error", "v3noauth-get1", "v3auth-get1", "v3priv-get1-after", "v3priv-get1-after-realign", "v3auth-discovery", "v2c-trap", "v2c-get1500"]
+QUICK_SEEDS = ["v2c-get1", "v2c-error", "v3noauth-get1", "v3auth-get1", "v3priv-get1-after", "v3priv-get1-after-realign", "v3auth-discovery", "v3auth-discovery-realign", "v2c-trap", "v2c-get1500"]
 REALIGN_ENGINE = b"\x80\x00\x1f\x88\x04agen\x05\x00"
 
 
@@ -635,6 +638,8 @@ def run_shard(params, acc):
             if peak is not None and peak > baseline + mem_budget(n):
                 facts["indefinite_length_octet"] = bool(delivered) and has_indefinite_header(delivered)
                 violations.append({"kind": "allocation-exceeds-memory-budget", "detail": {**facts, "peak": peak, "baseline": baseline, "budget": baseline + mem_budget(n)}, "facts": facts})
+            if outcome[0] == "NeverCompletes":
+                violations.append({"kind": "processing-never-completes", "detail": dict(facts), "facts": facts})
             if follow is not None and follow[0] == "runaway":
                 violations.append({"kind": "client-keeps-sending-requests", "detail": {**facts, "requests": follow[1]}, "facts": facts})
             elif follow is not None and not follow[0]:
@@ -679,6 +684,8 @@ def replay(case):
     if over is not None:
         facts = {"seed": case["seed"], "mutation": list(label), "indefinite_length_octet": bool(delivered) and has_indefinite_header(delivered), "in_x690": any("x690/" in f for f in over.frames[:3])}
         out.append({"kind": "processing-exceeds-cpu-budget", "detail": {**facts, "frames": over.frames[:6]}, "facts": facts})
+    elif outcome[0] == "NeverCompletes":
+        out.append({"kind": "processing-never-completes", "detail": {}})
     elif follow is not None and not follow[0]:
         out.append({"kind": "client-unusable-after-malformed-datagram", "detail": {"follow_up_exception": follow[1]}})
     return out
